@@ -2,6 +2,7 @@ package c07
 
 import (
 	"fmt"
+	"strings"
 	"testing"
 
 	"verif/pk"
@@ -63,6 +64,36 @@ func TestTableBlockPostfix(t *testing.T) {
 				pk.Class("blockleft:" + ctx)
 				if pa := parseRepo(c.A); pa.clean() {
 					pk.NonTrivial(c.A, map[string]string{"context": ctx, "operand": bl, "follower": fo})
+				}
+				col.Report(c, checkLayout(c))
+			}
+		}
+	}
+	// every assignment and binary operator glued to its operands: the characters next to an operator belong to the operands
+	ops := []string{"=", "+=", "-=", "*=", "/=", "%=", "**=", "<<=", ">>=", "|=", "&=", "^=",
+		"+", "-", "*", "/", "%", "**", "<<", ">>", "|", "&", "^", "||", "&&", "==", "!=", "<", "<=", ">", ">=", "as"}
+	for _, op := range ops {
+		for _, rhs := range []string{"1", "-1", "10", "(y)", "y", "!y", "[1][0]", "\"s\"", "f(2)", "{ 3 }"} {
+			if op == "as" {
+				rhs = "int"
+			}
+			spaced := "x " + op + " " + rhs
+			for li, glued := range []string{"x " + op + rhs, "x" + op + " " + rhs, "x" + op + rhs, "x " + op + "/*c*/" + rhs, "x/*c*/" + op + "\n" + rhs} {
+				if op == "as" && li < 3 {
+					continue // `as` is a word: it needs separators
+				}
+				if li >= 3 && strings.ContainsAny(op, "/*") {
+					continue // `/` next to `/*` would spell another comment
+				}
+				k++
+				if !pk.Mine(k) {
+					continue
+				}
+				c := layoutCase{A: wrapCtx("stmt", spaced), B: wrapCtx("stmt", glued), Kind: "gaps:operator-glued-to-operands"}
+				pk.Eval()
+				pk.Class("operator-layout:" + op)
+				if pa := parseRepo(c.A); pa.clean() {
+					pk.NonTrivial(c.B, map[string]string{"operator": op, "operand": rhs})
 				}
 				col.Report(c, checkLayout(c))
 			}
